@@ -1,6 +1,7 @@
 import StraxModel.Lemmas.ChunkAlgSplit
 import StraxModel.Lemmas.ChunkAlgChunk
 import StraxModel.Lemmas.ChunkAlgRechunk
+import StraxModel.Lemmas.RunOrder
 import StraxModel.Lemmas.ChunkAlgRuns
 import StraxModel.Lemmas.ChunkAlgShift
 /-
